@@ -6,6 +6,9 @@ set -u
 P=$1; ID=$2; TIER=${3:-quick}
 cd /repo && git diff --quiet || { echo "/repo not clean"; exit 2; }
 git apply $P || { echo "patch does not apply"; exit 3; }
+# the evidence file of a run against a deliberately broken tree must not replace the real one
+cp /verif/evidence/$ID.json /tmp/evidence_$ID.keep 2>/dev/null
 cd /verif && ./check $ID --tier $TIER; rc=$?
+cp /verif/evidence/$ID.json /tmp/evidence_$ID.seeded 2>/dev/null; cp /tmp/evidence_$ID.keep /verif/evidence/$ID.json 2>/dev/null
 cd /repo && git checkout -- .
 echo "check exit=$rc"
